@@ -597,7 +597,7 @@ def check(modname, argv):
         "property_id": pid, "tier": tier, "seed": seed, "level": "proof",
         "coverage": {
             "obligations": br.obligations, "discharged": br.discharged,
-            "checker_cmd": " && ".join(br.checker_cmds),
+            "checker_cmd": " && ".join("(%s)" % c for c in br.checker_cmds),
             "trusted_base": trusted_base(mod, axioms),
             "theorems": {th: ("Closed under the global context" if a == [] else a) for th, a in axioms.items()},
             "cone_files": br.cone,
